@@ -56,13 +56,25 @@ flavours_of() {
 }
 
 need() { # builds the flavours, exports VCHECK_<FLAVOUR>
-  local f
+  # The first flavour runs the check and must build. A later one that does not build (an
+  # instrumented or race build can trip over a construct the plain build accepts) is
+  # skipped: the remaining stages still run and can still report a violation; the
+  # evidence then says exhaustive:false with a note naming the skipped stage.
+  local f first=1
   for f in "$@"; do
     if ! build "$f"; then
-      echo "BUILD-FAILED flavour=$f (see below); not a property verdict" >&2
-      tail -30 "$BIN/build-$f.log" >&2
-      exit 2
+      if [ $first = 1 ]; then
+        echo "BUILD-FAILED flavour=$f (see below); not a property verdict" >&2
+        tail -30 "$BIN/build-$f.log" >&2
+        exit 2
+      fi
+      echo "STAGE-SKIPPED flavour=$f: it does not build against this tree (see below); the other stages run" >&2
+      tail -15 "$BIN/build-$f.log" >&2
+      unset "VCHECK_$(echo "$f" | tr a-z A-Z)"
+      first=0
+      continue
     fi
+    first=0
     export "VCHECK_$(echo "$f" | tr a-z A-Z)=$BIN/vcheck-$f"
   done
 }
